@@ -57,7 +57,7 @@ def rand_color(rng, none_ok=True):
 
 
 def rand_font(rng, kf):
-    names = NAMES + (SPECIAL_NAMES if kf.get("C05-KF3") and rng.random() < 0.5 else [])
+    names = NAMES + (SPECIAL_NAMES if rng.random() < 0.5 else [])     # (C05-KF3 while it is open)
     return {"name": rng.choice(names), "size": rng.choice(SIZES), "bold": rng.random() < 0.3, "italic": rng.random() < 0.3,
             "underline": rng.choice(UNDERLINES), "strike": rng.random() < 0.2, "color": rand_color(rng),
             "sch": rng.choice(["none", "none", "none", "minor", "major"])}
@@ -66,8 +66,8 @@ def rand_font(rng, kf):
 def rand_fill(rng, kf):
     p = rng.choice(PATTERNS)
     fg = rand_color(rng)
-    if p == "none" and not (kf.get("C05-KF2") and rng.random() < 0.5):
-        fg = dict(NOC)          # a pattern "none" with a foreground colour is the trigger of C05-KF2
+    if p == "none" and rng.random() < 0.5:
+        fg = dict(NOC)          # (a pattern "none" that keeps its foreground colour is the trigger of C05-KF2)
     return {"pattern": p, "fg": fg, "bg": rand_color(rng)}
 
 
